@@ -763,6 +763,58 @@ def plan (q : Query) : Except Err (List Step) :=
     else .error .planning
   | _, _ => .error .planning
 
+/-! ## the catalog (`QueryPlanner.__init__`, `get_predictor`, `resolve_table`): which operand is a model
+
+Every catalog name — data integrations, projects listed among the integrations, the project (`integration_name`)
+of each model of `predictor_metadata` (list form or legacy dict form), `predictor_namespace`, `default_namespace` —
+is compared in lower case with the lower-cased qualifier of the query. -/
+
+structure Catalog where
+  integrations : List String := []               -- data integrations, as written
+  projects : List String := []                   -- entries of `integrations` whose type is not `data`, as written
+  models : List (Option String × String) := []   -- (integration_name as written, if any; model name as written)
+  predictorNs : Option String := none
+  defaultNs : Option String := none
+deriving Repr, Inhabited
+
+/-- `self.predictor_namespace` -/
+def Catalog.pns (c : Catalog) : String :=
+  match c.predictorNs with
+  | some p => lower p
+  | none => "mindsdb"
+
+/-- keys of `self.predictor_info`: (project, model name), lower-cased -/
+def Catalog.modelKeys (c : Catalog) : List (String × String) :=
+  c.models.map fun (p, n) => ((match p with | some p => lower p | none => c.pns), lower n)
+
+/-- `self.databases`: integrations, `mindsdb`, projects, and the project of every model -/
+def Catalog.databases (c : Catalog) : List String :=
+  c.integrations.map lower ++ ("mindsdb" :: c.projects.map lower ++ c.modelKeys.map (·.1))
+
+/-- `str.isdigit` on ASCII text -/
+def isDigits (s : String) : Bool := !s.toList.isEmpty && s.toList.all Char.isDigit
+
+/-- `get_predictor`: a trailing all-digit part of a multi-part name is the version -/
+def dropVersion (parts : List String) : List String :=
+  match parts.reverse with
+  | v :: n :: rest => if isDigits v then (n :: rest).reverse else parts
+  | _ => parts
+
+/-- `get_predictor(identifier) is not None` -/
+def Catalog.isModel (c : Catalog) (parts : List String) : Bool :=
+  match (dropVersion parts).reverse with
+  | [] => false
+  | n :: rest =>
+    match (match rest with | q :: _ => some (lower q) | [] => c.defaultNs.map lower) with
+    | some ns => c.modelKeys.contains (ns, lower n)
+    | none => false
+
+/-- `resolve_table` finds an integration for the operand -/
+def Catalog.routable (c : Catalog) (parts : List String) : Bool :=
+  (match parts with
+   | q :: _ :: _ => c.databases.contains (lower q)
+   | _ => false) || c.defaultNs.isSome
+
 /-! ## specification vocabulary (used by the theorems of `Props/C14.lean`) -/
 
 /-- the proper descendants the walker visits -/
